@@ -55,25 +55,38 @@ func swap_BANG(ctx context.Context, a ...MalType) (MalType, error) {
 		return nil, errors.New("swap! called with non-atom")
 	}
 	atm := a[0].(*Atom)
-	atm.Mutex.Lock()
-	defer atm.Mutex.Unlock()
-	args := []MalType{atm.Val}
 	f := a[1]
-	args = append(args, a[2:]...)
-	res, e := Apply(ctx, f, args)
-	if e != nil {
-		return nil, e
+	for {
+		// the update function runs without the lock (it may deref or swap atoms itself);
+		// its result is installed only if nobody changed the atom meanwhile, else retried
+		atm.Mutex.RLock()
+		old, version := atm.Val, atm.version
+		atm.Mutex.RUnlock()
+		args := append([]MalType{old}, a[2:]...)
+		res, e := Apply(ctx, f, args)
+		if e != nil {
+			return nil, e
+		}
+		atm.Mutex.Lock()
+		if atm.version == version {
+			atm.Set(res)
+			atm.Mutex.Unlock()
+			return res, nil
+		}
+		atm.Mutex.Unlock()
+		if ctx != nil && ctx.Err() != nil {
+			return nil, errors.New("timeout while evaluating expression")
+		}
 	}
-	atm.Set(res)
-	return res, nil
 }
 
 // Atoms
 type Atom struct {
-	Mutex  sync.RWMutex
-	Val    MalType
-	Meta   MalType
-	Cursor *Position
+	Mutex   sync.RWMutex
+	version uint64 // incremented by every Set; guarded by Mutex
+	Val     MalType
+	Meta    MalType
+	Cursor  *Position
 }
 
 func (a *Atom) Type() string {
@@ -82,6 +95,7 @@ func (a *Atom) Type() string {
 
 func (a *Atom) Set(val MalType) MalType {
 	a.Val = val
+	a.version++
 	return a
 }
 
